@@ -120,16 +120,19 @@ def run_all(seed, tier, configs):
                 res["ok"] = False
                 res["problems"].append({"kind": "build", "detail": "harness: " + logh[-800:]})
             else:
-                rc1, exp_big = kv.sh("timeout 900 %s capibig --seed %d" % (kvh, seed), cwd=kv.BUILD, timeout=1000)
+                # dev-profile libraries and thorough-only detail: the largest sizes go to release builds
+                maxn = 13000 if prof == "release" else 2400
+                nexp = 50 if maxn > 12288 else 42
+                rc1, exp_big = kv.sh("timeout 900 %s capibig --seed %d --maxn %d" % (kvh, seed, maxn), cwd=kv.BUILD, timeout=1000)
                 envb = dict(kv.ENV)
                 if cfg["asan"]:
                     envb["ASAN_OPTIONS"] = "detect_leaks=1:abort_on_error=0:exitcode=23"
-                rc2, got_big = kv.sh("timeout 1500 %s --big %d" % (exe, seed), cwd=kv.BUILD, env=envb, timeout=1600)
+                rc2, got_big = kv.sh("timeout 1500 %s --big %d %d" % (exe, seed, maxn), cwd=kv.BUILD, env=envb, timeout=1600)
                 e = [l for l in exp_big.splitlines() if l.startswith("BIG ")]
                 g = [l for l in got_big.splitlines() if l.startswith("BIG ")]
                 res["evaluations"] += len(g)
                 res["runs"].append(dict(cfg, big=len(g), rc=rc2))
-                if rc1 != 0 or rc2 != 0 or len(e) != 50 or len(g) != 50:
+                if rc1 != 0 or rc2 != 0 or len(e) != nexp or len(g) != nexp:
                     res["ok"] = False
                     res["problems"].append({"kind": "crash", "config": dict(cfg, big=True), "detail": "big mode: kvh rc %d (%d lines), driver rc %d (%d lines): %s" % (rc1, len(e), rc2, len(g), got_big[-600:])})
                 else:
@@ -138,7 +141,7 @@ def run_all(seed, tier, configs):
                         res["ok"] = False
                         a, b = diff[0]
                         res["problems"].append({"kind": "crash", "config": dict(cfg, big=True),
-                                                "detail": "C API result differs from Rust linkage on a matrix of thousands of observations (%d of 50 calls): Rust `%s` vs C API `%s`; replay: %s --big %d and %s capibig --seed %d" % (len(diff), a, b, exe, seed, kvh, seed)})
+                                                "detail": "C API result differs from Rust linkage on a matrix of thousands of observations (%d of %d calls): Rust `%s` vs C API `%s`; replay: %s --big %d and %s capibig --seed %d" % (len(diff), nexp, a, b, exe, seed, kvh, seed)})
         if cfg["header"] == "capi" and (cfg["threads"] > 1 or not cfg["asan"]):
             # one handle read for the first time by several threads at once, then freed once
             t = max(cfg["threads"], 8)
